@@ -109,6 +109,8 @@ def oracles(q, a):
     if a.P != 0 or a.Q != 0:
         out.append(("C09", "valid-params-rejected", "valid parameters rejected (P=%s Q=%s)" % (a.P, a.Q)))
         return out
+    if a.E and any(ch in "Dd" for ch in a.E):
+        out.append(("C10", "duplicate-buffer-kept", "the source table holds the buffer of a later duplicate submission instead of the pointer supplied first (%s)" % a.E))
     if getattr(a, "GI", None) == 0:
         out.append(("C10", "table-not-empty", "of_get_source_symbols_tab reported a source symbol before any symbol was submitted"))
     if getattr(a, "ED", None) == 0:
